@@ -97,7 +97,11 @@ def _variable_subscript(it, cls, key):
 
 def _variable_ctor(it, cls, *args, **kw):
     init = args[0] if args else False
-    return bit(init if isinstance(init, (bool, z3.BoolRef)) else b_of(init), "variable")
+    wrapped = cls.params.get("wrapped") if isinstance(cls, SCls) else None
+    if wrapped is cohdl.Bit or isinstance(init, (bool, z3.BoolRef)) or (isinstance(init, SObj) and init.kind is _Bit):
+        return bit(init if isinstance(init, (bool, z3.BoolRef)) else b_of(init), "variable")
+    # a word variable (dispatch loops): holds an opaque value, Null is 0
+    return SObj(_WVar, f_v=0 if init is cohdl.Null else init)
 
 
 def _request(it, args, kwargs):
@@ -204,3 +208,200 @@ from cohdl._core._type_qualifier import TypeQualifier  # noqa: E402
 
 I.SUBSCRIPT_MODELS[TypeQualifier] = _variable_subscript
 I.CTOR_MODELS[TypeQualifier] = _variable_ctor
+
+
+# =====================================================================================================================
+# response side and request dispatch.  `await x` on a handshake signal is a clock boundary: execution continues in a
+# clock in which x is high (await_hook); every signal assignment and every await is recorded in order.
+# =====================================================================================================================
+from cohdl.std import _core_utility as CU  # noqa: E402
+
+
+class _TSig:
+    """recorded signal: `<<=` appends (name, value) to the trace"""
+
+
+_TSig.__ilshift__ = lambda self, v: None
+
+
+def _tsig_assign(it, self, v):
+    it.trace.append((self.fields["f_name"], v))
+    return self
+
+
+I.register_model(_TSig.__ilshift__, _tsig_assign)
+
+
+def tsig(name):
+    return SObj(_TSig, f_name=name)
+
+
+def await_hook(it, v, node):
+    if isinstance(v, SObj) and v.kind is _TSig:
+        it.trace.append(("await", v.fields["f_name"]))
+        return None
+    return v  # awaiting the result of an (eagerly run) coroutine call
+
+
+def resp_shape(which):
+    def make(env):
+        if which == "read":
+            return SObj(AX.Axi4Light, rddata=SObj(AX.Axi4Light.RdData, rdata=tsig("rdata"), rresp=tsig("rresp"), valid=tsig("rvalid"), ready=tsig("rready")))
+        if which == "write":
+            return SObj(AX.Axi4Light, wrresp=SObj(AX.Axi4Light.WrResp, bresp=tsig("bresp"), valid=tsig("bvalid"), ready=tsig("bready")))
+        return SObj(AX.Axi4Light, rdaddr=SObj(AX.Axi4Light.RdAddr, araddr="ARADDR", arprot="ARPROT", valid=tsig("arvalid"), ready=tsig("arready")))
+
+    return Built([], make, lambda a: "<axi>", lambda a: None)
+
+
+def trace_case(con, name, shapes, want_fn, result_fn=None):
+    def spec(sx, self, *args):
+        it = sx.it
+        want = want_fn(*args)
+
+        def holds(res):
+            if it.trace != want:
+                return False
+            return result_fn(res) if result_fn else res is None
+
+        return C.Pred(holds, f"trace == {want}")
+
+    c = Case(name, shapes, spec)
+    c.native = False
+    c.interp_flags = {"await_hook": await_hook, "class_call_models": {AX.Axi4Light._ReadRequest: lambda it, args, kw: SObj(AX.Axi4Light._ReadRequest, addr=args[0], prot=args[1])}}
+
+    def setup(it, ctx, args, env):
+        it.trace = []
+
+    c.setup = setup
+    con.cases.append(c)
+
+
+VAL = lambda tag: Built([], (lambda t: lambda env: t)(tag), lambda a: repr(tag), lambda a: None)
+
+# valid goes up together with the payload and comes down only in a clock in which ready was seen; nothing else is driven
+con = contract("cohdl.std.axi.axi4_light.base:Axi4Light.send_read_resp", PROPS)
+trace_case(con, "data+resp", [resp_shape("read"), VAL("DATA"), VAL("RESP")], lambda d, r: [("rdata", d), ("rresp", r), ("rvalid", True), ("await", "rready"), ("rvalid", False)])
+con = contract("cohdl.std.axi.axi4_light.base:Axi4Light.send_write_response", PROPS)
+trace_case(con, "resp", [resp_shape("write"), VAL("RESP")], lambda r: [("bresp", r), ("bvalid", True), ("await", "bready"), ("bvalid", False)])
+# ready is offered, withdrawn only after valid was seen, and the request is the payload of that clock
+con = contract("cohdl.std.axi.axi4_light.base:Axi4Light.await_read_request", PROPS)
+trace_case(con, "request", [resp_shape("request")], lambda: [("arready", True), ("await", "arvalid"), ("arready", False)],
+           lambda res: isinstance(res, SObj) and res.fields.get("addr") == "ARADDR" and res.fields.get("prot") == "ARPROT")
+
+
+# ---- dispatch: proc_read / proc_write of connect_addr_map ----------------------------------------------------------------
+class _Reg:
+    """register object of the flattened address map"""
+
+
+_Reg._contains_addr_ = lambda self, a: None
+_Reg._basic_read_ = lambda self, a, m: None
+_Reg._basic_write_ = lambda self, a, d, mask, meta: None
+I.register_model(_Reg._contains_addr_, lambda it, self, a: self.fields["f_contains"])
+I.register_model(_Reg._basic_read_, lambda it, self, a, m: it.trace.append(("read", self.fields["f_idx"], a)) or SObj(_Buf, f_v=self.fields["f_value"]))
+I.register_model(_Reg._basic_write_, lambda it, self, a, d, mask, meta: it.trace.append(("write", self.fields["f_idx"], a, d, mask)))
+
+
+class _Bus:
+    """the Axi4Light object as seen by the dispatch loops"""
+
+
+_Bus.await_read_request = lambda self: None
+_Bus.send_read_resp = lambda self, d: None
+_Bus.await_write_request = lambda self: None
+_Bus.send_write_response = lambda self: None
+
+
+def _addr():
+    a = SObj(cohdl.Signal, f_tag="addr")
+    a.fields["unsigned"] = "ADDR.unsigned"
+    return a
+
+
+I.register_model(_Bus.await_read_request, lambda it, self: it.trace.append(("request",)) or SObj(AX.Axi4Light._ReadRequest, addr=_addr(), prot="PROT"))
+I.register_model(_Bus.send_read_resp, lambda it, self, d: it.trace.append(("response", d.fields["f_v"] if isinstance(d, SObj) else d)))
+I.register_model(_Bus.await_write_request, lambda it, self: it.trace.append(("request",)) or SObj(AX.Axi4Light._WriteRequest, addr=_addr(), prot="PROT", data="DATA", strb="STRB"))
+I.register_model(_Bus.send_write_response, lambda it, self: it.trace.append(("response",)))
+
+
+class _WVar:
+    """cohdl.Variable holding a word"""
+
+
+_WVar.__imatmul__ = lambda self, v: None
+
+
+def _wvar_assign(it, self, v):
+    self.fields["f_v"] = v.fields["f_v"] if isinstance(v, SObj) and "f_v" in v.fields else v
+    return self
+
+
+I.register_model(_WVar.__imatmul__, _wvar_assign)
+
+
+class DispatchLoop(C.LoopSpec):
+    """`while True:` of proc_read / proc_write: every iteration serves one request"""
+
+    def __init__(self, func_name, ordinal, which, name):
+        super().__init__(func_name, ordinal, "C20", name=name)
+        self.which = which
+
+    def enter(self, it, frame, iterable):
+        return {}
+
+    def havoc(self, it, frame, st):
+        it.trace = []  # an arbitrary later iteration starts with an empty trace of its own
+
+    def advance(self, it, frame, st):
+        regs = it.regs
+        # the first register whose range contains the address (ranges are disjoint: at most one does)
+        hit = None
+        for r in regs:
+            if it.ctx.branch(r.fields["f_contains"]):
+                hit = r
+                break
+        if self.which == "read":
+            want = [("request",)] + ([("read", hit.fields["f_idx"], "ADDR.unsigned")] if hit is not None else []) + [("response", hit.fields["f_value"] if hit is not None else 0)]
+            ok = it.trace == want
+        else:
+            t = it.trace
+            ok = len(t) == (3 if hit is not None else 2) and t[0] == ("request",) and t[-1] == ("response",)
+            if ok and hit is not None:
+                w = t[1]
+                ok = w[0] == "write" and w[1] == hit.fields["f_idx"] and w[2] == "ADDR.unsigned" and w[3] == "DATA" and isinstance(w[4], SObj) and w[4].fields.get("f_mask") == ("stretch", "STRB", 8)
+        it.ctx.prove(self.oid("iteration"), ok, loop=self.key)
+
+
+def _null_word(it, cls, *args, **kw):
+    return SObj(_WVar, f_v=0 if (args and args[0] is cohdl.Null) else (args[0] if args else None))
+
+
+def dispatch_case(which, k):
+    fn_name = "proc_read" if which == "read" else "proc_write"
+    qual = f"cohdl.std.axi.axi4_light.base:Axi4Light.connect_addr_map.<{fn_name}>"
+    con = contract(qual, PROPS)
+    con.custom_fn = AX.Axi4Light.__dict__["connect_addr_map"]
+    con.nested = [fn_name]
+    # the loop never exits: all obligations of these cases are the loop's (`iteration`)
+    c = Case(f"{k}-registers", [], lambda sx: C.ANY)
+    c.native = False
+    c.loop_only = "#iteration"
+    c.interp_flags = {"await_hook": await_hook, "class_call_models": {CU.Mask: lambda it, args, kw: SObj(CU.Mask, f_mask=args[0].fields["f_v"] if isinstance(args[0], SObj) else args[0])}}
+    c.models = [(CU.as_awaitable, lambda it, fn, *args: it.call(fn, list(args), {})), (CU.stretch, lambda it, v, n: ("stretch", v, n))]
+
+    def nested_env(it, k=k):
+        it.trace = []
+        it.regs = [SObj(_Reg, f_idx=i, f_contains=it.ctx.fresh_bool(f"contains_{i}"), f_value=f"VALUE{i}") for i in range(k)]
+        return {"self": SObj(_Bus), "readable_regs": it.regs, "writable_regs": it.regs, "as_awaitable": CU.as_awaitable, "Mask": CU.Mask, "stretch": CU.stretch}
+
+    c.nested_env = nested_env
+    con.cases.append(c)
+
+
+for _which, _fn in (("read", "proc_read"), ("write", "proc_write")):
+    _q = f"cohdl.std.axi.axi4_light.base:Axi4Light.connect_addr_map.<{_fn}>"
+    DispatchLoop(f"Axi4Light.connect_addr_map.<locals>.{_fn}", 1, _which, name=_q + "#loop1")
+    for _k in range(0, 4):
+        dispatch_case(_which, _k)
+
